@@ -366,7 +366,14 @@ def run(ctx):
             ctx.violation(fail, {"table": table, "iface": nothread, "events": evs, "bits": [True] * 4, "finding_key": key})
     # every reserved bare name of the template (Gen/PyTmpl.v) that a table could use, probed as an event with one parameter:
     # outside the theorem's domain by py_names_ok; what happens on the real code is reported (known for Enum, EventStartup)
-    for nm in reserved_names():
+    probe = list(reserved_names())
+    try:    # also when the translator refused (stale Gen): the names the template binds NOW, read without refusing
+        from translator import pytmpl
+        with open(os.path.join(kj.REPO, pytmpl.SOURCE)) as fh:
+            probe += [x for x in pytmpl.scan_names(fh.read())[0] if x not in probe]
+    except Exception:  # noqa
+        pass
+    for nm in probe:
         if not re.fullmatch(r"[A-Z][A-Za-z0-9]*", nm):
             continue
         table = [["S", nm, "T", "OnA", "None"]]
